@@ -220,6 +220,100 @@ def _bucket_index_trees(ctx, f, consumer):
     return out
 
 
+_INT_BITS = {'u8': 8, 'u16': 16, 'u32': 32, 'u64': 64, 'u128': 128, 'usize': 64, 'i8': 8, 'i16': 16, 'i32': 32, 'i64': 64, 'i128': 128, 'isize': 64}
+
+
+def _divrem(t):
+    """('Div'|'Rem', a, b) for the operator and the method forms, else None"""
+    t = peel(t)
+    if t[0] == 'bin' and t[1] in ('Div', 'Rem'):
+        return t[1], t[2], t[3]
+    if t[0] == 'call' and len(t[2]) == 2:
+        last = str(t[1]).split('::')[-1]
+        if last in ('rem', 'rem_euclid', 'wrapping_rem'):
+            return 'Rem', t[2][0], t[2][1]
+        if last in ('div', 'div_euclid', 'wrapping_div'):
+            return 'Div', t[2][0], t[2][1]
+    return None
+
+
+def _calendar_identity(ctx):
+    """(F_all, F_width, bits of the count) when `CQueue::new` stores F_all = F_width's value * the bucket count: then
+    (x % F_all) / F_width < count"""
+    fn = ctx.P.fns.get(Q + '::new')
+    qa = ctx.P.adts.get(Q) or {}
+    ftys = {fd['n']: fd['ty'] for v in qa.get('variants', []) for fd in v['fields']}
+    out = []
+    if fn is None:
+        return out, ftys
+    for b, t in ret_trees(fn):
+        t = peel(t)
+        if not (t[0] == 'agg' and len(t) > 3):
+            continue
+        vals = {nm: canon(v) for nm, v in zip(t[3], t[2])}
+        for nm, v in vals.items():
+            m = peel(v)
+            fac = None
+            if m[0] == 'field' and len(m) > 2 and str(m[2]) == '0' and peel(m[1])[0] == 'bin' and peel(m[1])[1] == 'MulWithOverflow':
+                m = peel(m[1])      # debug builds: the checked product's value component
+            if m[0] == 'bin' and m[1] in ('Mul', 'MulWithOverflow'):
+                fac = (m[2], m[3])
+            elif m[0] == 'call' and str(m[1]).split('::')[-1] in ('mul',) and len(m[2]) == 2:
+                fac = (m[2][0], m[2][1])
+            if not fac:
+                continue
+            for w, v2 in vals.items():
+                for i in (0, 1):
+                    if w != nm and fac[i] == v2:
+                        o = peel(fac[1 - i])
+                        while o[0] == 'cast':
+                            o = peel(o[1])
+                        cnt = [c for c, v3 in vals.items() if peel(v3) == o and o[0] == 'arg']
+                        if cnt:
+                            out.append((nm, w, _INT_BITS.get(ftys.get(cnt[0], ''), 128)))
+    return out, ftys
+
+
+def _index_width(ctx, f, trees):
+    """no truncation inside the bucket index: every narrowing integer cast in it is applied to a value that fits the narrower type by
+    construction — a remainder by a value of at most that width, or the quotient (x % t_all) / t where `new` stored t_all = t * n
+    (the quotient is below the bucket count).  A narrowed timestamp, year offset or width wraps beyond 2^W ns: the event is then filed
+    under (and fetched from) a bucket of an earlier calendar day and comes out after later events."""
+    ident, ftys = _calendar_identity(ctx)
+
+    def width(t):
+        t = peel(t)
+        if t[0] == 'field' and len(t) > 2:
+            return _INT_BITS.get(ftys.get(t[2], ''), 128)
+        if t[0] == 'cast' and t[1] == 'IntToInt':
+            return min(_INT_BITS.get(t[3], 128), width(t[2]))
+        if t[0] == 'int':
+            return max(1, int(t[1]).bit_length()) if isinstance(t[1], int) else 128
+        dr = _divrem(t)
+        if dr and dr[0] == 'Rem':
+            return min(width(dr[1]), width(dr[2]))
+        if dr and dr[0] == 'Div':
+            a, b = _divrem(dr[1]), peel(dr[2])
+            if a and a[0] == 'Rem' and b[0] == 'field':
+                fa_ = peel(a[2])
+                for (f_all, f_w, bits) in ident:
+                    if fa_[0] == 'field' and fa_[2] == f_all and b[2] == f_w:
+                        return min(bits, width(dr[1]))
+            return width(dr[1])
+        return 128
+
+    for s, idx in trees:
+        for x in walk(idx):
+            if isinstance(x, tuple) and x and x[0] == 'cast' and x[1] == 'IntToInt' and len(x) >= 5:
+                to, fr = _INT_BITS.get(x[3]), _INT_BITS.get(x[4])
+                if to and fr and to < fr:
+                    w = width(x[2])
+                    ctx.check(w <= to, 'index-width',
+                              'the bucket index narrows a %s to %s where the value is not bounded by the narrower type (only a remainder by a value of that '
+                              'width, or the quotient (x %% n*t) / t < n, may be narrowed): timestamps beyond 2^%d ns are filed under the wrong bucket and '
+                              'come out late' % (x[4], x[3], to), s.where(), {'operand': show(x[2])[:160], 'bound_bits': w})
+
+
 def r2_bucket_index(ctx, rule='C01.R2'):
     ctx.set_rule(rule)
     fa = ctx.anchor(Q + '::add')
@@ -254,6 +348,8 @@ def r2_bucket_index(ctx, rule='C01.R2'):
                   'CQueue::add files an event under bucket index %s, CQueue::cancel looks under %s — a handle would be searched in a bucket its event was not put in'
                   % (show_c(t), ' / '.join(show_c(x) for x in cc)), s.where(),
                   {'add_index': show_c(t), 'cancel_index': [show_c(x) for x in cc]})
+    _index_width(ctx, fa, [(s, idx) for (s, base, idx) in A if idx is not None] )
+    _index_width(ctx, fc, [(s, idx) for (s, base, idx) in C if idx is not None])
     for t, s in cc.items():
         if t not in ca:
             ctx.violation('cancel-vs-add:index-mismatch',
